@@ -51,34 +51,6 @@ theorem U.free_law (x t u : U) (ht : t.scale ≠ 0) : (x.div t).div (u.div t) = 
   · field_simp
 
 -- ================================================================================================ units of expressions
-/-- the units the uninterpreted function symbols give their results (`none`: rejected) -/
-structure UI where
-  FU1 : String → U → Option U
-  FU2 : String → U → U → Option U
-
-/-- `units.evaluate_units` on right-hand sides: sums need equal units, products and quotients combine them -/
-def unitOf (J : UI) (s : CState) : X → Option U
-  | .var v => some (unitOfV s v)
-  | .deriv x t => some ((unitOfV s x).div (unitOfV s t))
-  | .lit _ u => some u
-  | .add a b | .sub a b =>
-      match unitOf J s a, unitOf J s b with
-      | some ua, some ub => if ua = ub then some ua else none
-      | _, _ => none
-  | .mul a b =>
-      match unitOf J s a, unitOf J s b with
-      | some ua, some ub => some (ua.mul ub)
-      | _, _ => none
-  | .div a b =>
-      match unitOf J s a, unitOf J s b with
-      | some ua, some ub => some (ua.div ub)
-      | _, _ => none
-  | .fn1 f a => (unitOf J s a).bind (J.FU1 f)
-  | .fn2 f a b =>
-      match unitOf J s a, unitOf J s b with
-      | some ua, some ub => J.FU2 f ua ub
-      | _, _ => none
-
 /-- both sides of the equation have the same units -/
 def Consistent (J : UI) (s : CState) (e : CEqn) : Prop := unitOf J s e.rhs = some (lhsUnit s e.lhs)
 
